@@ -2859,18 +2859,14 @@ class SHA1Reader(BinaryIO):
             ChecksumMismatch: If SHA1 doesn't match
         """
         stored = self.f.read(20)
-        # If git option index.skipHash is set the index will be empty
-        if stored != self.sha1.digest() and (
-            not allow_empty
-            or (
-                len(stored) == 20
-                and sha_to_hex(RawObjectID(stored))
-                != b"0000000000000000000000000000000000000000"
-            )
+        # If git option index.skipHash is set the trailer is all zeros; a
+        # trailer that is cut short is damage like any other
+        if stored != self.sha1.digest() and not (
+            allow_empty and stored == b"\0" * 20
         ):
             raise ChecksumMismatch(
                 self.sha1.hexdigest(),
-                sha_to_hex(RawObjectID(stored)) if stored else b"",
+                binascii.hexlify(stored),
             )
 
     def close(self) -> None:
